@@ -11,13 +11,69 @@ Decided:
           bounds the answer from above (Exact, AtMost); for AtLeast -- whose mask only lists *guaranteed* rows -- the ranges to read
           must not be restricted by the mask; skip/take push-down only for Exact / AtLeast
   TABLE   Scanner: whenever the index expression needs a recheck, a post-index filter is applied
-Not decided: that zone statistics / bloom bits / trigram postings are supersets of the truth.
+  INV     zone / block pruning looks at the predicate: in ZoneMapIndex::evaluate_zone_against_query and
+          BloomFilterIndex::evaluate_block_against_query every answer that can be `false` (= skip the zone), inside the arm
+          of a query kind that carries values (Equals, Range, IsIn), depends -- by data flow or by the branches that lead to
+          it, the dispatch on the query kind excluded -- on those values.  A skip decided from the zone's statistics alone
+          would prune the zone for every predicate of that kind, and no statistic alone can justify that (e.g. NaN rows do
+          match `x > c`).  Exemption: a skip that depends only on null_count / zone_length (an all-NULL zone matches no
+          value predicate)
+Not decided: that zone statistics / bloom bits / trigram postings are supersets of the truth; the comparisons' values.
 """
 from engine.cfg import op_place, expr_of
 from engine.facts import AnchorMissing
 from .common import user_body, calls, name_of, has_name, origin_has_call, origin_calls
 
 LEVEL = "other"
+
+
+def check_prune_looks_at_predicate(db, chk):
+    R = "INV-prune-depends-on-query"
+    chk.rule(R, "a zone / block is skipped only by an answer that depends on the predicate's values")
+    T = lambda t: True
+    total = 0
+    for pat, file, qadt, null_only in (
+            (r"ZoneMapIndex::evaluate_zone_against_query$", "lance-index/src/scalar/zonemap.rs", "SargableQuery", {"null_count", "zone_length"}),
+            (r"BloomFilterIndex::evaluate_block_against_query$", "lance-index/src/scalar/bloomfilter.rs", "BloomFilterQuery", {"has_null"})):
+        f = db.one(pat, file=file)
+        chk.analysed(f)
+        c = f.cfg
+        qarg = [i for i in range(1, 6) if (f.locals[i].get("name") == "query")]
+        if len(qarg) != 1:
+            raise AnchorMissing("%s: `query` parameter not found" % f.path)
+        qarg = qarg[0]
+        sws = [b for b in sorted(c.reach0) if c.switch_info(b) and c.switch_info(b)["kind"] == "enum" and
+               (c.switch_info(b)["adt"] or "").endswith(qadt) and c.switch_info(b)["place"] and c.switch_info(b)["place"][0] == qarg and
+               all(e == "*" for e in c.switch_info(b)["place"][1:])]
+        if len(sws) != 1:
+            raise AnchorMissing("%s: dispatch on the query kind not found (%d)" % (f.path, len(sws)))
+        si = c.switch_info(sws[0])
+        adt = [a for k, a in db.adts.items() if k.endswith(qadt) and a.get("enum")]
+        payload = {v["name"]: len(v["fields"]) for v in adt[0]["variants"]} if adt else {}
+        name = f.path.split("::")[-1]
+        for var, tgt in sorted(si["label_to"].items()):
+            if not payload.get(var):
+                continue            # IsNull(): nothing to look at but the statistics
+            others = {t for t in si["label_to"].values() if t != tgt}
+            region = c.reachable_from([tgt], include_start=True, avoid=others)
+            rets = [(i, s) for i, j, s in c.aggregates(adt="Result", variant="Ok") if s["lhs"] == [0] and i in region]
+            n = 0
+            for i, s in rets:
+                op = s["rv"]["ops"][0]
+                if op_place(op) is None and op.get("v") is True:
+                    continue        # keeps the zone
+                n += 1
+                total += 1
+                o = c.op_origins(op, transparent=T) | c.control_origins(i, transparent=T, skip=lambda b: b == sws[0])
+                flds = {x[1] for x in o if x[0] == "field"}
+                looks = ("arg", qarg) in o
+                stats = sorted(x for x in flds if not str(x).isdigit())
+                exempt = not looks and bool(stats) and set(stats) <= null_only
+                chk.ob(R, "%s:%s:%d" % (name, var, n), looks or exempt,
+                       "%s, %s arm, answer #%d (%s): depends on the predicate's values: %s; statistics consulted: %s%s" % (
+                           name, var, n, "constant false" if op_place(op) is None else "computed", looks, stats,
+                           " (all-NULL exemption)" if exempt else ""), f.loc(s["ln"]))
+    chk.floor(R, "skip-capable answers examined", total, 20)
 
 
 def search_fn(db, file):
@@ -218,4 +274,5 @@ def run(db, chk):
     check_search_kinds(db, chk)
     check_consumers(db, chk)
     check_scanner_recheck(db, chk)
+    check_prune_looks_at_predicate(db, chk)
     chk.assume("an AtMost(M) leaf result really is a superset of the matching rows (index contents are not analysed)")
